@@ -1,5 +1,12 @@
 package main
 
+import (
+	"fmt"
+	"go/ast"
+	"go/token"
+	"strings"
+)
+
 // C07 — facts for the later layers (timestamp, bool, string, float framing, WAL reader).
 func genC07Rest(g *Gen) error {
 	const (
@@ -9,6 +16,7 @@ func genC07Rest(g *Gen) error {
 		cmpF    = "lib/compress/float.go"
 		cmpC    = "lib/compress/compress.go"
 		encF    = "lib/encoding/float.go"
+		wal     = "engine/wal.go"
 	)
 	if err := g.srcDef(encTime, "scale", "src_scale"); err != nil {
 		return err
@@ -35,7 +43,12 @@ func genC07Rest(g *Gen) error {
 			return err
 		}
 	}
+	if err := genC07Wal(g, wal); err != nil {
+		return err
+	}
 	for _, f := range [][3]string{
+		{wal, "WAL.replayPhysicRecord", "fp_walReplayPhysicRecord"},
+		{wal, "WAL.writeBinary", "fp_walWriteBinary"},
 		{encTime, "Time.encodingInit", "fp_timeEncodingInit"},
 		{encTime, "Time.Encoding", "fp_timeEncoding"},
 		{encTime, "Time.packUncompressedData", "fp_timePackUncompressedData"},
@@ -71,5 +84,99 @@ func genC07Rest(g *Gen) error {
 			return err
 		}
 	}
+	return nil
+}
+
+// genC07Wal: which results of `io.ReadFull(fr, recordCompBuff)` make replayPhysicRecord decode
+// the record buffer, the record-type guard, the header size and the record type names.
+func genC07Wal(g *Gen, wal string) error {
+	fd, err := g.Func(wal, "WAL.replayPhysicRecord")
+	if err != nil {
+		return err
+	}
+	var cond ast.Expr
+	var guard string
+	for i, st := range fd.Body.List {
+		if as, ok := st.(*ast.AssignStmt); ok && len(as.Rhs) == 1 &&
+			g.Src(as.Rhs[0]) == "io.ReadFull(fr, recordCompBuff)" && i+1 < len(fd.Body.List) {
+			if ifs, ok := fd.Body.List[i+1].(*ast.IfStmt); ok && ifs.Init == nil {
+				cond = ifs.Cond
+			}
+		}
+		if ifs, ok := st.(*ast.IfStmt); ok && strings.Contains(g.Src(ifs.Cond), "writeWalType") && guard == "" {
+			guard = g.Src(ifs.Cond)
+		}
+	}
+	if cond == nil {
+		return fmt.Errorf("%s: replayPhysicRecord: no `if` right after io.ReadFull(fr, recordCompBuff)", wal)
+	}
+	var terms []ast.Expr
+	var flat func(e ast.Expr)
+	flat = func(e ast.Expr) {
+		if p, ok := e.(*ast.ParenExpr); ok {
+			flat(p.X)
+			return
+		}
+		if b, ok := e.(*ast.BinaryExpr); ok && b.Op == token.LOR {
+			flat(b.X)
+			flat(b.Y)
+			return
+		}
+		terms = append(terms, e)
+	}
+	flat(cond)
+	onNil, onEOF, onUnexp := false, false, false
+	for _, t := range terms {
+		switch g.Src(t) {
+		case "err == nil":
+			onNil = true
+		case "err == io.EOF":
+			onEOF = true
+		case "err == io.ErrUnexpectedEOF":
+			onUnexp = true
+		default:
+			return fmt.Errorf("%s: replayPhysicRecord: unrecognised acceptance term %q", wal, g.Src(t))
+		}
+	}
+	if !onNil {
+		return fmt.Errorf("%s: replayPhysicRecord does not decode a completely read record (%s)", wal, g.Src(cond))
+	}
+	g.P("def walAcceptCond : String := %s", leanStr(g.Src(cond)))
+	g.P("def walDecodeOnEOF : Bool := %v", onEOF)
+	g.P("def walDecodeOnUnexpectedEOF : Bool := %v", onUnexp)
+	g.P("def walTypeGuard : String := %s", leanStr(guard))
+	if err := g.natConst(wal, "WalRecordHeadSize", "walRecordHeadSize", nil); err != nil {
+		return err
+	}
+	// names of the WalRecordType constants, in iota order
+	f, err := g.Parse(wal)
+	if err != nil {
+		return err
+	}
+	var names []string
+	for _, d := range f.Decls {
+		gd, ok := d.(*ast.GenDecl)
+		if !ok || gd.Tok != token.CONST || len(gd.Specs) == 0 {
+			continue
+		}
+		first, ok := gd.Specs[0].(*ast.ValueSpec)
+		if !ok || len(first.Names) != 1 || first.Names[0].Name != "WriteWalUnKnownType" {
+			continue
+		}
+		if len(first.Values) != 1 || g.Src(first.Values[0]) != "iota" {
+			return fmt.Errorf("%s: WriteWalUnKnownType is not iota", wal)
+		}
+		for i, sp := range gd.Specs {
+			vs := sp.(*ast.ValueSpec)
+			if len(vs.Names) != 1 || (i > 0 && len(vs.Values) != 0) {
+				return fmt.Errorf("%s: unexpected WalRecordType constant block", wal)
+			}
+			names = append(names, vs.Names[0].Name)
+		}
+	}
+	if len(names) == 0 {
+		return fmt.Errorf("%s: WalRecordType constants not found", wal)
+	}
+	g.StrList("walTypeNames", names)
 	return nil
 }
